@@ -25,6 +25,7 @@ import DD.Doc
 import DD.CWrap
 import Generated.Tables
 import Generated.CTables
+import DD.CWrapReviewed
 namespace DD
 
 /-! ### operator meanings -/
@@ -274,6 +275,26 @@ after a later node-creating C call on the same path (such a call may garbage-col
 theorem refTraces_noFloatingUse :
     (Gen.cRefTraces.all fun m => m.role != .plain || m.paths.all (pathNoFloat (localsOf m.backend) m)) = true := by
   decide +kernel
+
+/-- the functions that are NOT followed by the reader (`Gen.cUncovered`, test helpers aside) are
+exactly those reviewed by hand, with the text they had when reviewed (DD/CWrapReviewed.lean) -/
+theorem uncovered_reviewed : Gen.cUncoveredText = reviewedUncovered := by decide
+
+/-- each function that memoizes in CUDD's computed table uses ONE tag, the same for its lookups
+and its inserts, and no two functions share a tag (a shared tag makes one operator return what the
+other computed: the table identifies an entry by operands and tag) -/
+def cacheTagsOk (l : List (Backend × String × List String × List String)) : Bool :=
+  l.all (fun x =>
+    match x.2.2.1 ++ x.2.2.2 with
+    | [] => false
+    | t :: ts => ts.all (· == t) && !x.2.2.1.isEmpty && !x.2.2.2.isEmpty) &&
+  (l.map fun x => (x.1, (x.2.2.1 ++ x.2.2.2).head?)).Nodup
+
+theorem cacheTags_distinct : cacheTagsOk Gen.cCacheTags = true := by decide
+
+/-- the check has teeth: `_forall` inserting under the tag of `_exist` is refused -/
+example : cacheTagsOk [(.cuddZdd, "_forall", ["_exist_cache_id"], ["_exist_cache_id"]),
+    (.cuddZdd, "_exist", ["_exist_cache_id"], ["_exist_cache_id"])] = false := by decide
 
 def hasMethod (b : Backend) (name : String) (role : CRole) : Bool :=
   Gen.cRefTraces.any fun m => m.backend == b && m.name == name && m.role == role
